@@ -104,7 +104,7 @@ func Lexemes(typ, format string) []string {
 		if format == "date-time" {
 			return []string{"2020-01-02T03:04:05Z", "2020-01-02T03:04:05.123456789+02:00", "0001-01-01T00:00:00Z", "9999-12-31T23:59:59Z", "2020-01-02", "2020-01-02T03:04:05", "2020-13-02T03:04:05Z", "2020-01-02t03:04:05z", "x", "03:04:05Z", ""}
 		}
-		return []string{"a", "a b", "7", "true", "é", "%41", "a,b", ""}
+		return []string{"a", "a b", "7", "true", "é", "%41", "a,b", ".", "..", ""}
 	}
 	return []string{"a", "7", ""}
 }
